@@ -1,0 +1,100 @@
+//go:build verif
+
+package core
+
+// Contracts for govc (see /verif/DESIGN.md). Comment-only file: contributes no code.
+
+// ---- ghost state of one proxied request
+//@ ghost field started bool
+//@ ghost var attempts int
+//@ ghost var lastAttempted *domain.Endpoint
+//@ ghost var lastAttemptErr error
+
+// connErr is DEFINED as the result of IsConnectionError (defines clause); circuitOpen is the class of
+// "endpoint skipped because its circuit is open" errors named by the property statement; finalErr tags the
+// errors built by buildFinalError.
+//@ spec func connErr(e error) bool
+//@ spec func circuitOpen(e error) bool
+//@ spec func finalErr(e error) bool
+//@ spec func uniqueNames(xs []*domain.Endpoint) bool = forall ua int, ub int :: 0 <= ua && ua < ub && ub < len(xs) ==> xs[ua].Name != xs[ub].Name
+
+//@ func IsConnectionError
+//@   property C02 C04
+//@   defines res == connErr(err)
+//@   ensures err == nil ==> !res
+//@   ensures err != nil && errorsAs(err, "net.Error") ==> res
+
+//@ functype ProxyFunc
+//@   modifies *
+//@   records attempts = old(attempts) + 1
+//@   records lastAttempted = endpoint
+//@   records lastAttemptErr = err
+//@   ensures err != nil && connErr(err) ==> ghost(w).started == old(ghost(w).started)
+//@   ensures forall e *domain.Endpoint :: ghost(e).gauge == old(ghost(e).gauge)
+//@   ensures forall e *domain.Endpoint :: old(allocated(e)) ==> e.Name == old(e.Name)
+
+//@ func (h *RetryHandler) checkContextCancellation
+//@   property C02
+//@   ensures true
+
+//@ func (h *RetryHandler) buildFinalError
+//@   property C04
+//@   defines finalErr(res)
+//@   ensures res != nil && fresh(res)
+
+//@ func (h *RetryHandler) preserveRequestBody
+//@   property C01 C02
+//@   requires r != nil
+//@   modifies r.Body
+
+//@ func (h *RetryHandler) resetRequestBodyForRetry
+//@   property C01 C02
+//@   requires r != nil
+//@   modifies r.Body
+
+//@ func (h *RetryHandler) executeProxyAttempt
+//@   property C02 C04 C19
+//@   requires endpoint != nil
+//@   modifies *
+//@   ensures attempts == old(attempts) + 1 && lastAttempted == endpoint && lastAttemptErr == res
+//@   ensures res != nil && connErr(res) ==> ghost(w).started == old(ghost(w).started)
+//@   ensures forall e *domain.Endpoint :: ghost(e).gauge == old(ghost(e).gauge)
+//@   ensures forall e *domain.Endpoint :: old(allocated(e)) ==> e.Name == old(e.Name)
+
+//@ func (h *RetryHandler) updateEndpointStatus
+//@   property C03 C04
+//@   requires h != nil && endpoint != nil
+//@   modifies gvar updCount, gvar updStatus, gvar updLastChecked, gvar updNext, gvar updFailures, gvar updMult, gvar updURL, gvar updErr
+//@   ensures updCount == old(updCount) + 1 && updStatus == endpoint.Status && updNext == endpoint.NextCheckTime && updFailures == endpoint.ConsecutiveFailures && updMult == endpoint.BackoffMultiplier && updLastChecked == endpoint.LastChecked && updURL == endpoint.URLString
+
+//@ func (h *RetryHandler) markEndpointUnhealthy
+//@   property C03 C04 C07
+//@   requires h != nil
+//@   modifies gvar updCount, gvar updStatus, gvar updLastChecked, gvar updNext, gvar updFailures, gvar updMult, gvar updURL, gvar updErr
+//@   ensures endpoint == nil ==> updCount == old(updCount)
+//@   ensures endpoint != nil ==> updCount == old(updCount) + 1 && updStatus == "offline" && updURL == endpoint.URLString
+//@   ensures endpoint != nil ==> updFailures == endpoint.ConsecutiveFailures + 1 && updMult == nextMult(endpoint.BackoffMultiplier) && updNext == updLastChecked + delayOf(endpoint.CheckInterval, endpoint.BackoffMultiplier) && updLastChecked >= old(now)
+
+//@ func (h *RetryHandler) removeFailedEndpoint
+//@   property C04
+//@   requires allNonNil(endpoints) && failedEndpoint != nil
+//@   loop 1 invariant 0 <= i && i <= len(endpoints)
+//@   loop 1 invariant forall k int :: 0 <= k && k < i ==> endpoints[k].Name != failedEndpoint.Name
+//@   ensures subset(res, endpoints) && allNonNil(res)
+//@   ensures (exists k int :: 0 <= k && k < len(endpoints) && endpoints[k].Name == failedEndpoint.Name) ==> len(res) == len(endpoints) - 1
+//@   ensures (forall k int :: 0 <= k && k < len(endpoints) ==> endpoints[k].Name != failedEndpoint.Name) ==> len(res) == len(endpoints)
+//@   ensures uniqueNames(endpoints) ==> uniqueNames(res) && (forall k int :: 0 <= k && k < len(res) ==> res[k].Name != failedEndpoint.Name)
+//@   ensures (exists k int :: 0 <= k && k < len(endpoints) && endpoints[k].Name == failedEndpoint.Name) ==> (exists i int :: 0 <= i && i < len(endpoints) && endpoints[i].Name == failedEndpoint.Name && (forall k int :: 0 <= k && k < i ==> res[k] == endpoints[k] && endpoints[k].Name != failedEndpoint.Name) && (forall k int :: i < k && k < len(endpoints) ==> res[k - 1] == endpoints[k]))
+
+//@ func hasConnectionError
+//@   property C02 C04
+//@   ensures err == nil ==> !res
+
+//@ func (h *RetryHandler) handleConnectionFailure
+//@   property C03 C04
+//@   requires h != nil && endpoint != nil && allNonNil(availableEndpoints)
+//@   modifies gvar updCount, gvar updStatus, gvar updLastChecked, gvar updNext, gvar updFailures, gvar updMult, gvar updURL, gvar updErr
+//@   ensures updCount == old(updCount) + 1 && updStatus == "offline" && updURL == endpoint.URLString
+//@   ensures subset(res, availableEndpoints) && allNonNil(res)
+//@   ensures (exists k int :: 0 <= k && k < len(availableEndpoints) && availableEndpoints[k].Name == endpoint.Name) ==> len(res) == len(availableEndpoints) - 1
+//@   ensures uniqueNames(availableEndpoints) ==> uniqueNames(res) && (forall k int :: 0 <= k && k < len(res) ==> res[k].Name != endpoint.Name)
